@@ -28,7 +28,7 @@ PLACEHOLDER = ["a1", "b2", "c3", "d4"]
 
 
 def step_obligations(prefix, kinds, tier, maxd, maxc, symflags=False, free=False, symkw=False, symargs=True, alen=None,
-                     timeout=None, arities=None, namelen=None, tl=1, dl=2, region=None):
+                     timeout=None, arities=None, namelen=None, tl=1, dl=2, region=None, deepd=0, deepc=0, preargs=()):
     """symargs=False: argument texts are concrete placeholders (state-heavy family A); True: symbolic texts (family B)"""
     quick = tier == "quick"
     procs, special = special_names()
@@ -41,10 +41,11 @@ def step_obligations(prefix, kinds, tier, maxd, maxc, symflags=False, free=False
             al = alen or (2 if quick else 3)
             nl = namelen or (2 if quick else 3)
             fam = "B(symbolic args)" if symargs else "A(state)"
-            tag = "" if region is None else (" [known finding %s %s]" % (region[0], "isolated" if region[1] == "in" else "subtracted"))
+            big = (f" +{deepd} deep definition frames" if deepd else "") + (f" +{deepc} deep class frames" if deepc else "") + (f" +{len(preargs)} concrete arguments" if preargs else "")
+            tag = big if region is None else big + (" [known finding %s %s]" % (region[0], "isolated" if region[1] == "in" else "subtracted"))
             obs.append(vf.CH(f"{prefix} step {fam} kind={k} nargs={na} |defs|<={maxd} |classes|<={maxc}{tag}", "step.py",
                              dict(KIND=k, MAXD=maxd, MAXC=maxc, NCP=(na * al) if symargs else 0, NA=na if symargs else 0, CARGS=None if symargs else PLACEHOLDER[:na],
-                                  ALEN=al, CASES=(0, 1, 2) if k != "@other" else (0,), SYMFLAGS=symflags, FREE=free, SYMKW=symkw, REGION=region, NAMELEN=nl, TL=tl, DL=dl, SPECIAL=special,
+                                  ALEN=al, CASES=(0, 1, 2) if k != "@other" else (0,), SYMFLAGS=symflags, FREE=free, SYMKW=symkw, REGION=region, DEEPD=deepd, DEEPC=deepc, PREARGS=tuple(preargs), NAMELEN=nl, TL=tl, DL=dl, SPECIAL=special,
                                   NT=tup(nl if k == "@other" else 1), FT=tup(3 + tl + dl if free else 1)),
                              timeout=timeout or (300 if quick else 1800), encodes=STEP_ENC,
                              symbolic="abstract pre-state sigma (shape of the definition and class stacks, each frame entry or none, "
